@@ -147,6 +147,27 @@ def run(rep, tier="quick", replay=None, evidence_dir=None):
                    "parse_fixed keeps %r as a custom attribute of the fixed, the %s serializer writes it explicitly as well: after one round trip the object has the key twice (duplicate keys are not strict JSON)" % (k, shp),
                    ser.loc())
 
+    # custom attributes survive: inside each attribute loop the entry is written for every key (the only admissible guard is
+    # the caller's written_by_caller list): no comparison of the key with a string literal
+    for body, what in ((fx, "FixedSchema::serialize_to_map"), (ser, "Schema::serialize"), (fld, "RecordField::serialize")):
+        loops = body.loops()
+        bad = []
+        n_attr = 0
+        for kind, k, v, bi in entries(body, set(range(body.n))):
+            if kind != "entry" or k is not None:
+                continue
+            lp = shape.loop_of(body, bi)
+            if lp is None:
+                continue
+            n_attr += 1
+            for x in lp[1]:
+                t = body.blocks[x]["term"]
+                if t["t"] == "call":
+                    nm = callee_names(t["func"])
+                    if nm and nm[0] in ("std::cmp::PartialEq::eq", "std::cmp::PartialEq::ne") and any(body.op_str(a) is not None for a in t["args"]):
+                        bad.append([body.op_str(a) for a in t["args"] if body.op_str(a) is not None][0])
+        rep.ob("C10.R1", "%s writes every custom attribute (no key is filtered out by name)" % what, n_attr >= 1 and not bad,
+               "attribute loop skips keys %s: a custom attribute with that name is lost on a JSON round trip (and from file headers)" % sorted(set(bad)) if bad else "no attribute loop found", body.loc())
     # ---------------- R2 logical types
     pc = prog.body(P + "parse_complex")
     fam = dict((c.key, c) for c in prog.with_closures(pc))
@@ -243,6 +264,18 @@ def run(rep, tier="quick", replay=None, evidence_dir=None):
     for shp in ("Null", "Boolean", "Int", "Long", "Float", "Double", "Bytes", "String"):
         lit = sorted(S.get(shp, {}).get("str", []))
         rep.ob("C10.R4", "%s is written as a name the parser maps back to %s" % (shp, shp), len(lit) == 1 and ptab.get(lit[0]) == shp, "written %s, parser table %s" % (lit, ptab), ser.loc())
+
+    # ---------------- R5 (imported): names and aliases get the namespaces the serializer will write back (C11.R4 instances)
+    rep.rule("C10.R5", "the parser assigns namespaces to names and aliases consistently (C11.R4 instances): what is written back re-parses to the same full names")
+    import c11
+    sub = common.Report("C11", tier, 0)
+    c11.run(sub, tier=tier, collect_only=True)
+    n5 = 0
+    for o in sub.obligations:
+        if o["rule"] == "C11.R4":
+            n5 += 1
+            rep.ob("C10.R5", "[C11.R4] " + o["instance"], o["ok"], o["detail"], o["loc"])
+    rep.floor("C10.R5", "imported namespace obligations", n5, 20)
 
     rep.floor("C10", "obligations", len(rep.obligations), 110)
     rep.not_decided = ["escaping and number formatting (serde_json)", "defaults of every JSON kind, attribute values", "text identity of the second serialization for concrete schemas"]
